@@ -38,6 +38,7 @@ package device
 //@   && d.mapping >= 0 && d.mapping < len(d.config.KeyMappings)
 //@   && d.activeNotesCounter != nil && d.noteTracker != nil && d.analogNoteTracker != nil && d.keyTracker != nil
 //@   && d.actionTracker != nil && d.ccZeroed != nil
+//@   && d.eventProcessMutex != nil && d.externalTrackerMutex != nil && d.eventProcessMutex != d.externalTrackerMutex
 //@   && (forall ch byte :: ch < 16 ==> has(d.activeNotesCounter, ch) && d.activeNotesCounter[ch] != nil)
 //@   && (forall c1 byte, c2 byte :: c1 < 16 && c2 < 16 && c1 != c2 ==> d.activeNotesCounter[c1] != d.activeNotesCounter[c2])
 //@   && (forall k evdev.EvCode :: has(d.noteTracker, k) ==> d.noteTracker[k][0] <= 127 && d.noteTracker[k][1] < 16)
@@ -50,6 +51,16 @@ package device
 //@ pred held(d *Device) :=
 //@   forall ch byte, n byte :: sounding[ch][n] ==> ch < 16 && n < 128 && (d.activeNotesCounter[ch][n] >= 1 || cnt(d.analogNoteTracker, mkarr(n, ch)) >= 1)
 //@ pred InvCore(d *Device) := wf(d) && counted(d) && held(d)
+
+// ---- C16 (partial): lock discipline of the event thread as contracts.
+// `locked` = mutexes currently held (set by Lock, cleared by Unlock); `concurrent` = other goroutines of this device may be
+// running (set by a go statement, cleared by WaitGroup.Wait). Every write to a guarded field, or to a map held in one, is an
+// obligation `locked[mutex] || !concurrent`; the methods below are only called in such a context (implicit precondition).
+//@ ghost var locked set[Ref]
+//@ ghost var concurrent bool
+//@ guarded_by Device.eventProcessMutex [C16]: noteTracker, analogNoteTracker, activeNotesCounter, lastAnalogValue, actionTracker, ccZeroed, keyTracker, octave, semitone, channel, velocity, multiNote, mapping, ccLearning
+//@ guarded_by Device.externalTrackerMutex [C16]: externalNoteTracker
+//@ lockctx [C16] locked[d.eventProcessMutex] || !concurrent : (*Device).NoteOn, (*Device).NoteOff, (*Device).AnalogNoteOn, (*Device).AnalogNoteOff, (*Device).OctaveDown, (*Device).OctaveUp, (*Device).OctaveReset, (*Device).SemitoneDown, (*Device).SemitoneUp, (*Device).SemitoneReset, (*Device).MappingDown, (*Device).MappingUp, (*Device).MappingReset, (*Device).ChannelDown, (*Device).ChannelUp, (*Device).ChannelReset, (*Device).CCLearningOn, (*Device).CCLearningOff, (*Device).Multinote, (*Device).Panic, (*Device).checkDoubleActions, (*Device).invokeActionPress, (*Device).invokeActionRelease, (*Device).handleKEYEvent, (*Device).handleABSEvent
 
 // ---- NoteOn / NoteOff
 
@@ -257,6 +268,7 @@ package device
 //@   loop 1 invariant ccv == upd(old(ccv), 123, 0)
 //@   ensures [C17] extOK(d) && (forall c byte :: c < 16 ==> empty(d.externalNoteTracker[c]))
 //@   loop 2 invariant [C17] inmap != nil && (forall c byte :: c < i ==> has(inmap, c) && inmap[c] != nil && empty(inmap[c]) && allocated(inmap[c])) && i <= 16
+//@   ensures [C16] d.externalTrackerMutex != d.eventProcessMutex ==> (locked[d.eventProcessMutex] <==> old(locked[d.eventProcessMutex]))
 //@   ensures wf(d)
 //@   ensures [C01!] old(InvCore(d)) ==> InvCore(d)
 //@   loop 1 invariant note <= 128
@@ -266,7 +278,7 @@ package device
 //@   loop 1 invariant forall i int :: uint64(i - old(outLen)) >= uint64(1 + int(note)) ==> out[i] == old(out)[i]
 //@   loop 1 invariant sounding == upd(old(sounding), ch, emptyset("set[byte]"))
 //@   safety [C05,C13]
-//@   modifies out, outLen, sounding, ccv, d.externalNoteTracker
+//@   modifies out, outLen, sounding, ccv, d.externalNoteTracker, locked
 
 // ---- pair detection (C04): both keys of an up/down pair held resets that parameter, in this priority order
 
@@ -332,10 +344,11 @@ package device
 //@   ensures [C02,C13] action != config.Panic ==> outLen == old(outLen) && out == old(out) && sounding == old(sounding)
 //@   ensures [C13] action == config.Panic ==> panicOut(old(out), old(outLen), out, outLen, old(sounding), sounding, old(d.channel))
 //@   ensures [C07] ccv == old(ccv) || ccv == upd(old(ccv), 123, 0)
+//@   ensures [C16] d.externalTrackerMutex != d.eventProcessMutex ==> (locked[d.eventProcessMutex] <==> old(locked[d.eventProcessMutex]))
 //@   ensures wf(d)
 //@   ensures [C01!] old(InvCore(d)) ==> InvCore(d)
 //@   safety [C04,C13]
-//@   modifies d.octave, d.semitone, d.channel, d.mapping, d.ccLearning, out, outLen, sounding, ccv, d.externalNoteTracker
+//@   modifies d.octave, d.semitone, d.channel, d.mapping, d.ccLearning, out, outLen, sounding, ccv, d.externalNoteTracker, locked
 
 //@ func (*Device).invokeActionRelease
 //@   requires wf(d) && tableOK(d)
@@ -421,7 +434,7 @@ package device
 //@   ensures wf(d) && tableOK(d)
 //@   ensures [C01!] old(Inv(d)) && old(envKey(d, ie)) ==> Inv(d)
 //@   safety [C01,C05]
-//@   modifies d.keyTracker[_], d.actionTracker[_], d.noteTracker[_], d.activeNotesCounter[_][_], d.octave, d.semitone, d.channel, d.mapping, d.ccLearning, d.multiNote, heap("[]int"), heap("*[1]int"), out, outLen, sounding, ccv, sigs, d.externalNoteTracker
+//@   modifies d.keyTracker[_], d.actionTracker[_], d.noteTracker[_], d.activeNotesCounter[_][_], d.octave, d.semitone, d.channel, d.mapping, d.ccLearning, d.multiNote, heap("[]int"), heap("*[1]int"), out, outLen, sounding, ccv, sigs, d.externalNoteTracker, locked
 
 // ---- axis events
 
@@ -500,7 +513,7 @@ package device
 //@   ensures [C08] isKeyAx && identifier != identifierNeg && local(value) <= -0.5 ==> !has(d.analogNoteTracker, identifier)
 //@   ensures [C08] isKeyAx && identifier != identifierNeg && local(value) <= -0.5 && !a.Bidirectional ==> (has(d.analogNoteTracker, identifierNeg) <==> old(has(d.analogNoteTracker, identifierNeg))) && outLen == old(outLen) + (if old(has(d.analogNoteTracker, identifier)) then 1 else 0)
 //@   safety [C05]
-//@   modifies d.keyTracker[_], d.actionTracker[_], d.analogNoteTracker[_], d.lastAnalogValue[_][_], d.ccZeroed[_], d.octave, d.semitone, d.channel, d.mapping, d.ccLearning, out, outLen, sounding, ccv, d.externalNoteTracker
+//@   modifies d.keyTracker[_], d.actionTracker[_], d.analogNoteTracker[_], d.lastAnalogValue[_][_], d.ccZeroed[_], d.octave, d.semitone, d.channel, d.mapping, d.ccLearning, out, outLen, sounding, ccv, d.externalNoteTracker, locked
 
 // which side of a bidirectional axis the (shaped, flipped) value is on: below 0 for a signed range, below the middle otherwise
 //@ pred bidiSideNeg(signed bool, v float64) := (signed && v < 0.0) || (!signed && v < 0.5)
@@ -520,7 +533,7 @@ package device
 //@   ensures wf(d) && tableOK(d) && cfgRanges(d.config) && cfgDz(d.config) && lavOK(d.config, d.lastAnalogValue)
 //@   ensures [C01!] old(Inv(d)) && old(envEvent(d, event)) ==> Inv(d)
 //@   safety [C01]
-//@   modifies d.keyTracker[_], d.actionTracker[_], d.noteTracker[_], d.activeNotesCounter[_][_], d.analogNoteTracker[_], d.lastAnalogValue[_][_], d.ccZeroed[_], d.octave, d.semitone, d.channel, d.mapping, d.ccLearning, d.multiNote, heap("[]int"), heap("*[1]int"), out, outLen, sounding, ccv, sigs, d.externalNoteTracker
+//@   modifies d.keyTracker[_], d.actionTracker[_], d.noteTracker[_], d.activeNotesCounter[_][_], d.analogNoteTracker[_], d.lastAnalogValue[_][_], d.ccZeroed[_], d.octave, d.semitone, d.channel, d.mapping, d.ccLearning, d.multiNote, heap("[]int"), heap("*[1]int"), out, outLen, sounding, ccv, sigs, d.externalNoteTracker, locked
 
 // C01, second sentence: when the event stream ends (at any moment: the loop invariant holds after every prefix),
 // every note still tracked is released before processing ends, so nothing is left sounding at the receiver.
